@@ -34,3 +34,8 @@ ASSUME.update({
          "URL-escaping of attribute values in index rows is exercised by the harness (values with '|', '%', '=', '&', non-ASCII), not modelled",
          "signature verification of claims is assumed (C16)"],
 })
+ASSUME.update({
+ "C05": ["a blob is abstracted to its fetch dependencies (in fetch order) and its index dependency; the rows themselves (apart from meta/have/missing) are compared between runs of the implementation, not modelled",
+         "real goroutine interleavings inside ReceiveBlob are sampled by the concurrent-delivery runs, not enumerated",
+         "the unbounded completeness theorem (model state = SPEC state for every world and order) is not proved yet; a complete sweep of one world is"],
+})
